@@ -565,12 +565,16 @@ ASMJIT_FAVOR_SIZE Error FormatterInternal::format_operand(
       }
     }
 
-    if (m.has_shift()) {
+    // The extend operation of the index (uxtw, sxtw, sxtx) is a part of the operand even when the shift amount is
+    // zero - `[x1, w2, uxtw]` and `[x1, w2, sxtw]` are different addressing modes and must not format the same.
+    if (m.has_shift() || (m.has_index() && !m.is_pre_or_post() && m.shift_op() != ShiftOp::kLSL)) {
       ASMJIT_PROPAGATE(sb.append(' '));
       if (!m.is_pre_or_post()) {
         ASMJIT_PROPAGATE(format_shift_op(sb, m.shift_op()));
       }
-      ASMJIT_PROPAGATE(sb.append_format(" %u", m.shift()));
+      if (m.has_shift()) {
+        ASMJIT_PROPAGATE(sb.append_format(" %u", m.shift()));
+      }
     }
 
     if (!m.is_post_index()) {
